@@ -209,6 +209,10 @@ pub struct ExecCtx {
     /// Number of wake-ups issued from destructors while the simulation was being dropped.
     pub drop_wakes: AtomicU64,
     pub sim_dropping: AtomicBool,
+    /// A step time-out is in force (set by the driver when it is configured).
+    pub timeout_armed: AtomicBool,
+    /// The harness made a timed wait of the executor elapse.
+    pub timeout_seen: AtomicBool,
     /// Set at the very end of the run: no waker may be stored any more (the
     /// context outlives the simulated execution).
     pub pool_closed: AtomicBool,
@@ -232,6 +236,8 @@ impl ExecCtx {
             wake_on_drop: AtomicBool::new(false),
             drop_wakes: AtomicU64::new(0),
             sim_dropping: AtomicBool::new(false),
+            timeout_armed: AtomicBool::new(false),
+            timeout_seen: AtomicBool::new(false),
             pool_closed: AtomicBool::new(false),
         })
     }
